@@ -175,13 +175,26 @@ var stepProgs = []stepProg{
 	{"id(x)", 1}, {"[x, y][i]", 2}, {"[k: x][k]", 1}, {"{f: x, g: y}.g", 2},
 	{"[{f: x, g: x}, {f: x, g: y}][i].g", 2}, {"[{f: xs, g: xs}, {f: [x], g: [y]}][i].g", 2}, {"if(c, {f: x, g: x}, {f: y, g: x}).f", 2},
 	{"x == y", 2}, {"string(x)", 1}, {"len([x, y])", 2}, {"union([x], [y])", 2},
+	// the polymorphic list functions applied to the children themselves: the
+	// result is built from the run-time type of one argument, so an
+	// instantiation that lets the two differ (empty-literal types) shows here
+	{"union(x, y)", 2}, {"intersect(x, y)", 2}, {"diff(x, y)", 2},
+	// object literals of equal type written with their fields in different
+	// orders inside one program (they may share compile-time artefacts)
+	{"[{f: x, g: y}, {g: y, f: x}][i].g", 2}, {"if(c, {f: x, g: y}, {g: y, f: x}).f", 2},
+	{"{p: {f: x, g: y}, q: {g: y, f: x}}.q.f", 2}, {"[{f: x, g: y}, {g: y, f: x}]", 2},
 }
 
 // H01_step: one step of the inductive argument - each node kind, applied to
 // arbitrary well-typed children of catalogue types, yields on every back end
 // a value that is well typed at the inferred type (components included).
 func H01_step() {
-	e := NewEngine()
+	e := sv.Setup("engine+id", func() interface{} {
+		e := NewEngine()
+		idA := types.TyVar("a")
+		e.Register(val.Fun(types.Fun("id", []*types.Type{idA}, idA), func(args ...*val.Val) *val.Val { return args[0] }))
+		return e
+	}).(*Engine)
 	p := stepProgs[sv.Choice("prog", len(stepProgs))]
 	n := CatalogueSize()
 	kx := sv.Choice("Tx", n)
@@ -189,21 +202,25 @@ func H01_step() {
 	ty := tx
 	if p.arity == 2 {
 		// the second child: an equal type (fields permuted) or any other one
-		switch sv.Choice("y-type", 2+thoroughExtra()) {
+		switch sv.Choice("y-type", 3+thoroughExtra()) {
 		case 0:
 			ty = Permuted(tx, "ty")
 		case 1:
 			ty = Catalogue((kx + 1) % n)
+		case 2:
+			// both orders of every adjacent pair (list[num] next to list[⊥])
+			ty = Catalogue((kx + n - 1) % n)
 		default:
 			ty = Catalogue(sv.Choice("Ty", n))
 		}
 	}
-	idA := types.TyVar("a")
-	e.Register(val.Fun(types.Fun("id", []*types.Type{idA}, idA), func(args ...*val.Val) *val.Val { return args[0] }))
 	tys := map[string]*types.Type{"x": tx, "y": ty, "i": types.Num, "c": types.Bool, "k": types.Str, "k2": types.Str,
 		"xs": types.List(tx), "o": types.Maybe(tx), "m": types.Map(types.Str, tx)}
 	names := []string{"x", "y", "i", "c", "k", "k2", "xs", "o", "m"}
-	expr, t, cls := e.Front(p.src, tys, names)
+	// front end and the four compilers once per (program, child types): the
+	// compiled closures are then run on every value of those types
+	cc := CompiledOnce(e, p.src, tys, names)
+	t, cls := cc.ty, cc.cls
 	if cls != "ok" {
 		sv.Reach("rejected")
 		sv.Assert("rejection-is-a-type-error", hasPrefix(cls, "assert:"))
@@ -236,7 +253,7 @@ func H01_step() {
 	}
 	vals := map[string]*val.Val{"x": vx, "y": vy, "i": val.Num(float64(iv)), "c": cv, "k": val.Str("k"), "k2": val.Str(k2),
 		"xs": xs.Vl(), "o": o, "m": m.Vl()}
-	res, c := runAll(e, expr, vals, names)
+	res, c := runCompiled(e, cc, vals, names)
 	for b := 0; b < NBackends; b++ {
 		sv.Assert("no-mis-typed-access:"+BackendNames[b], c[b] != "cast" && c[b] != "rt:nil" && c[b] != "rt:typeassert")
 		if c[b] == "ok" {
